@@ -1,7 +1,202 @@
 import Driver.Common
+import Log4rsModel.Pattern.Writers
+/-
+C10 driver. Case fields:
+  1 forest  comma-separated prefix tokens
+              m:<params>       {m…}    the message, written in the scripted pieces of field 3
+              l:<params>       {l…}    the level name
+              t:<hexstr>       literal text
+              g<k>:<params>    {(…)…}  group of the next k nodes
+              h<k>:<params>    {h(…)…} highlight group of the next k nodes
+            <params> = fill/align/min/max, fill = `-` or one hex scalar, align = `-`|`L`|`R`,
+            min/max = `-` or decimal. A fill is only expressible together with an alignment.
+  2 level   1=Error … 5=Trace
+  3 message pieces  comma list of hex strings (`~` none)
+  4 sink acceptance script  comma list of numbers (0 = whole buffer), `~` none
+Observation: `<bytes hex> <style list>` where the style list is `pos:text/background/intense`
+joined by `,` (`~` none) — or `PANIC` / `err`.
+-/
 namespace Driver.C10
-open Driver
+open Driver Log4rs Log4rs.Proto Log4rs.Pattern
 
-def handle : Handler := fun _ _ => badCase "unimplemented"
+def decParams (s : String) : Option Params :=
+  match splitOnChar '/' s with
+  | [f, a, mn, mx] => do
+    let fill ← if f = "-" then some none else
+      match decStr f with
+      | some [c] => some (some c)
+      | _ => none
+    let right ← match a with
+      | "-" => some none
+      | "L" => some (some false)
+      | "R" => some (some true)
+      | _ => none
+    let minW ← decOpt decNat mn
+    let maxW ← decOpt decNat mx
+    if fill.isSome && right.isNone then none
+    else some { fill := fill.getD ' ', right := right.getD false, minW, maxW }
+  | _ => none
+
+def levelName : Nat → Option (List Char)
+  | 1 => some ['E','R','R','O','R']
+  | 2 => some ['W','A','R','N']
+  | 3 => some ['I','N','F','O']
+  | 4 => some ['D','E','B','U','G']
+  | 5 => some ['T','R','A','C','E']
+  | _ => none
+
+structure Env where
+  level : Nat
+  levelText : List Char
+  msg : List Piece
+
+/-- parse `k` nodes in prefix notation -/
+def parseNodes (env : Env) : Nat → Nat → List String → Option (List Node × List String)
+  | _, 0, toks => some ([], toks)
+  | 0, _ + 1, _ => none
+  | fuel + 1, k + 1, toks =>
+    match toks with
+    | [] => none
+    | tok :: rest =>
+      match splitOnChar ':' tok with
+      | [head, arg] =>
+        let kind := head.toList.head?
+        let cnt := (String.ofList (head.toList.drop 1)).toNat?
+        let one : Option (Node × List String) :=
+          match kind, cnt with
+          | some 'm', none => (decParams arg).map fun p => (Node.fmt p [Node.leaf env.msg], rest)
+          | some 'l', none => (decParams arg).map fun p =>
+              (Node.fmt p [Node.leaf [Piece.data env.levelText]], rest)
+          | some 't', none => (decStr arg).map fun cs => (Node.leaf [Piece.data cs], rest)
+          | some 'g', some n =>
+            match decParams arg, parseNodes env fuel n rest with
+            | some p, some (cs, rest') => some (Node.fmt p cs, rest')
+            | _, _ => none
+          | some 'h', some n =>
+            match decParams arg, parseNodes env fuel n rest with
+            | some p, some (cs, rest') =>
+              match highlightStyle env.level with
+              | some st =>
+                some (Node.fmt p ([Node.leaf [Piece.style st]] ++ cs ++ [Node.leaf [Piece.style Style.plain]]), rest')
+              | none => some (Node.fmt p cs, rest')
+            | _, _ => none
+          | _, _ => none
+        match one with
+        | none => none
+        | some (nd, rest') =>
+          match parseNodes env fuel k rest' with
+          | some (nds, rest'') => some (nd :: nds, rest'')
+          | none => none
+      | _ => none
+
+def parseForestFuel (env : Env) : Nat → List String → Option (List Node)
+  | _, [] => some []
+  | 0, _ :: _ => none
+  | fuel + 1, toks =>
+    match parseNodes env (toks.length + 1) 1 toks with
+    | some ([nd], rest) => (parseForestFuel env fuel rest).map (nd :: ·)
+    | _ => none
+
+def parseForest (env : Env) (toks : List String) : Option (List Node) :=
+  parseForestFuel env toks.length toks
+
+def encOptNat : Option Nat → String
+  | none => "-"
+  | some n => toString n
+
+def encStyle (s : Style) : String :=
+  encOptNat s.text ++ "/" ++ encOptNat s.background ++ "/" ++
+    (match s.intense with | none => "-" | some b => encBool b)
+
+def encObs (evs : List BEv) : String :=
+  encBytes (bytesOf evs) ++ " " ++
+    encList "," ((stylePositions evs 0).map fun (pos, s) => toString pos ++ ":" ++ encStyle s)
+
+mutual
+def depth : Node → Nat
+  | .leaf _ => 0
+  | .fmt p cs => (if p.minW.isSome || p.maxW.isSome then 1 else 0) + depths cs
+def depths : List Node → Nat
+  | [] => 0
+  | n :: ns => max (depth n) (depths ns)
+end
+
+def multiByte (c : Char) : Bool := c.toNat ≥ 128
+
+mutual
+/-- branch tags of a node, computed along the model's operation stream -/
+def tagsNode : Node → List String
+  | .leaf _ => []
+  | .fmt p cs =>
+    let inner := denotes cs
+    let t := inner.text
+    let n := t.length
+    let here : List String :=
+      (match p.maxW with
+        | some M =>
+          (if n > M then ["trunc"] else []) ++
+          (if n > M && ((t.drop M).head?.any multiByte || (t.take M).getLast?.any multiByte)
+            then ["cut-at-multibyte"] else []) ++
+          (if M = 0 then ["max0"] else [])
+        | none => []) ++
+      (match p.minW with
+        | some m =>
+          (if m > n then [if p.right then "pad-right" else "pad-left"] else []) ++
+          (if m > n && multiByte p.fill then ["fill-multibyte"] else [])
+        | none => []) ++
+      (match p.minW, p.maxW with
+        | some m, some M => if m > M then ["m>M"] else []
+        | _, _ => []) ++
+      (if p.right && p.minW.isSome && !inner.styles.isEmpty then ["style-buffered"] else []) ++
+      (if p.maxW.isSome && !inner.styles.isEmpty then ["style-through-max"] else [])
+    here ++ tagsNodes cs
+def tagsNodes : List Node → List String
+  | [] => []
+  | n :: ns => tagsNode n ++ tagsNodes ns
+end
+
+def handle : Handler := fun cas obs =>
+  match cas, obs with
+  | [forestS, levelS, msgS, scriptS], implObs :: _ =>
+    match decNat levelS, mapM? decStr (decList ',' msgS), mapM? decNat (decList ',' scriptS) with
+    | some level, some msgPieces, some script =>
+      match levelName level with
+      | none => badCase "level"
+      | some levelText =>
+        let env : Env := { level, levelText, msg := msgPieces.map Piece.data }
+        match parseForest env (decList ',' forestS) with
+        | none => badCase "forest"
+        | some forest =>
+          let w := encodeNodes forest (W.sink script [])
+          let model := encObs w.emitted
+          -- the specification, evaluated on the implementation's observation
+          let ordered := Node.orderedAll forest
+          let implBytes := match splitOnChar ' ' implObs with
+            | b :: _ => decBytes b
+            | [] => none
+          let spec : String :=
+            match implBytes with
+            | none => "FAIL:no-bytes(" ++ implObs ++ ");sig=C10/outcome"
+            | some bs =>
+              match decodeUtf8 bs with
+              | none => "FAIL:invalid-utf8;sig=C10/invalid-utf8"
+              | some text =>
+                let bound : Option Nat := match forest with
+                  | [Node.fmt p _] => p.maxW
+                  | _ => none
+                if bound.any (fun M => text.length > M) then "FAIL:more-than-M-characters;sig=C10/exceeds-max"
+                else if ordered && text ≠ specTexts forest then
+                  "FAIL:law expected " ++ encStr (specTexts forest) ++ ";sig=C10/law"
+                else "ok"
+          let d := depths forest
+          let base := tagsNodes forest
+          let tags := base.eraseDups ++
+            (if d ≥ 2 then ["nest" ++ toString d] else []) ++
+            (if script.any (· ≠ 0) then ["short-writes"] else []) ++
+            (if msgPieces.length > 1 then ["msg-pieces"] else []) ++
+            (if d = 0 then ["trivial"] else [])
+          { model, spec, tags }
+    | _, _, _ => badCase "fields"
+  | _, _ => badCase "arity"
 
 end Driver.C10
